@@ -246,37 +246,44 @@ def r09_5_origin(chk):
     ctor = [c for f, ic, c in model.add_methods() if f is add]
     if not ctor:
         raise AnalysisError("OriginItem construction not found in add_origin")
-    fid = kw(ctor[0], "file_id")
-    chk.require(fid is not None and norm(fid) in ("self.file_header.header_id", "self.file_header_item.header_id"),
-                "R09.5", "file-id-from-header", f"add_origin passes file_id={norm(fid) if fid else None}", add.where)
-    chkf = lf.lookup("_check_defining_origin_params")
-    chk.consult(chkf)
-    g = CFG(chkf.node)
-    raises = [n for n in g.nodes() if g.kind[n] == "raise"]
-    cmp_ok = any("file_id" in norm(g.stmt[i].test) and "!=" in norm(g.stmt[i].test) for i in g.branch)
-    chk.require(len(raises) >= 2 and cmp_ok, "R09.5", "file-id-checked-against-header",
-                "the defining origin's FILE-ID is no longer compared with the header id (raise on mismatch)", chkf.where)
+    from ..terms import (SELF, A, K, NONE, contains, is_call, call_arg, call_name, pp, attr_stores, raise_conditions,
+                         subterms, first_of as _first_of)
+    asum = chk.summary(add)
+    octor = [c for c in asum.all_calls() if call_name(c) == "OriginItem" and call_arg(c, kw="file_id") is not None]
+    fid = call_arg(octor[0], kw="file_id") if octor else None
+    header_ids = (A(SELF, "file_header", "header_id"), A(SELF, "file_header_item", "header_id"))
+    chk.require(fid in header_ids, "R09.5", "file-id-from-header",
+                f"add_origin passes file_id={pp(fid) if fid else None}", add.where)
     co = lf.lookup("check_objects")
-    chk.require(chkf in cg.callees(co), "R09.5", "check-on-write-path", "check_objects does not run the defining "
-                "origin check", co.where)
-    # file set number assigned on every path of the set-up hook
+    cs = chk.terms.inline(co, 3)
+    chk.consult(co)
+    mism = [pc for pc, _ in raise_conditions(cs) if any(
+        l[0] == "cmp" and l[1] == "!=" and contains(l, lambda x: x[0] == "attr" and x[2] == "file_id") and
+        contains(l, lambda x: x[0] == "attr" and x[2] == "header_id") for l in pc)]
+    no_origin = [pc for pc, _ in raise_conditions(cs) if any(
+        (l[0] == "not" or (l[0] == "cmp" and l[1] == "is" and l[3] == NONE)) and contains(
+            l, lambda x: (x[0] == "attr" and x[2] == "defining_origin") or _first_of(x) is not None) for l in pc)]
+    chk.require(bool(mism) and bool(no_origin), "R09.5", "file-id-checked-against-header",
+                "the defining origin's FILE-ID is no longer compared with the header id on the write path (raise on "
+                "mismatch, raise when there is no origin)", co.where)
+    chk.ok("R09.5", "check-on-write-path", "decided on the inlined summary of check_objects", co.where, nontrivial=False)
+    # file set number assigned on every path of the origin's set-up: the stores under "FILE-SET-NUMBER is None" cover both
+    # polarities of whatever else they depend on
     oi = ix.get_class("OriginItem")
     hook = oi.lookup("_set_defaults_at_init") or oi.lookup("__init__")
+    hs = chk.terms.inline(hook, 3)
     chk.consult(hook)
-    g = CFG(hook.node)
-    guard = [i for i in g.branch if "file_set_number" in norm(g.stmt[i].test) and "is None" in norm(g.stmt[i].test)]
-    ok = False
-    if guard:
-        te, fe = g.branch[guard[0]]
-        assigns = g.nodes_where(lambda s: isinstance(s, ast.Assign) and any("file_set_number.value" in norm(t)
-                                                                            for t in s.targets))
-        # from the "is None" branch every path to the join passes through an assignment
-        ok = bool(assigns) and EXIT not in g.reachable(te, avoid=assigns, exceptional=False)
-    chk.require(ok, "R09.5", "file-set-number-always-present",
-                "an origin can be left without FILE-SET-NUMBER", hook.where)
+    fsn = A(SELF, "file_set_number")
+    unset = ("cmp", "is", A(fsn, "value"), NONE)
+    sts = [e for obj, k, v, e in attr_stores(hs) if obj == fsn and k == K("value") and unset in e.pc]
+    rest = [tuple(l for l in e.pc if l != unset) for e in sts]
+    complete = any(not r for r in rest) or any(len(a) == 1 and len(b) == 1 and (a[0] == ("not", b[0]) or b[0] == ("not", a[0]))
+                                               for a in rest for b in rest)
+    chk.require(bool(sts) and complete, "R09.5", "file-set-number-always-present",
+                "an origin can be left without FILE-SET-NUMBER (the defaults do not cover every path on which it is "
+                "unset)", hook.where)
     base_init = ix.get_class("EFLRItem").lookup("__init__")
-    called = hook.name == "__init__" or any(isinstance(n, ast.Call) and norm(n.func) == f"self.{hook.name}"
-                                            for n in walk_local(base_init.node))
+    called = hook.name == "__init__" or bool(chk.summary(base_init).all_calls(hook.name))
     chk.require(called, "R09.5", "defaults-hook-called", "the origin's default set-up is never called", base_init.where)
     # defining origin = first item of own origin sets
     from ..terms import SELF, A, K, NONE, contains, alternatives, return_alternatives, pp
